@@ -12,11 +12,15 @@ package main
 // against one writer; the recorded history is checked read by read.
 
 import (
+	"bytes"
+	"context"
 	"errors"
 	"fmt"
 	"math"
 	"math/rand"
 	"os"
+	"os/exec"
+	"path/filepath"
 	"runtime"
 	"sort"
 	"strings"
@@ -709,6 +713,55 @@ func execStress(c *ctx, line string, f []string) string {
 	return "ok"
 }
 
+// execRace: the same stress under the Go race detector.  A second binary is built
+// with `go build -race` (needs cgo; works offline here) next to this one and run on
+// one `#stress` line; a DATA RACE report or any witness of the child is a witness.
+func execRace(c *ctx, line string, f []string) string {
+	exe, err := os.Executable()
+	if err != nil {
+		return "norace:" + err.Error()
+	}
+	bin := filepath.Dir(exe)
+	mod := filepath.Dir(bin)
+	race := filepath.Join(bin, "wh-race")
+	build := exec.Command("go", "build", "-race", "-tags", "verif", "-o", race, "./cmd/wh")
+	build.Dir = mod
+	build.Env = append(os.Environ(), "CGO_ENABLED=1", "GOFLAGS=-mod=mod", "GOPROXY=off", "GOSUMDB=off", "GOTOOLCHAIN=local")
+	if out, err := build.CombinedOutput(); err != nil {
+		c.stat("race_build_failed")
+		return "norace:build:" + strings.ReplaceAll(string(out), "\n", " ")
+	}
+	ctxT, cancel := context.WithTimeout(context.Background(), 10*time.Minute)
+	defer cancel()
+	run := exec.CommandContext(ctxT, race, "exec", "sched06", "-tier", "quick")
+	run.Stdin = strings.NewReader("#stress " + strings.Join(f, " ") + "\n")
+	run.Env = append(os.Environ(), "GORACE=halt_on_error=0")
+	var stdout, stderr bytes.Buffer
+	run.Stdout, run.Stderr = &stdout, &stderr
+	err = run.Run()
+	if strings.Contains(stderr.String(), "DATA RACE") {
+		rep := stderr.String()
+		if len(rep) > 1500 {
+			rep = rep[:1500]
+		}
+		c.witness("C06", "data-race", "race detector report: "+strings.ReplaceAll(rep, "\n", " | "), line)
+		return "race"
+	}
+	for _, l := range strings.Split(stdout.String(), "\n") {
+		if strings.HasPrefix(l, "!W\t") {
+			p := strings.Split(l, "\t")
+			if len(p) >= 4 {
+				c.witness(p[1], p[2], p[3]+" (under -race)", line)
+			}
+		}
+	}
+	if err != nil {
+		return "raceerr:" + err.Error()
+	}
+	c.stat("race_runs")
+	return "ok"
+}
+
 func execSched(c *ctx, line string) string {
 	f := strings.Split(strings.TrimPrefix(line, "#"), " ")
 	if len(f) < 2 {
@@ -721,6 +774,8 @@ func execSched(c *ctx, line string) string {
 		return execSchedCase(c, line, "C06", f[2:])
 	case f[0] == "stress":
 		return execStress(c, line, f[1:])
+	case f[0] == "race":
+		return execRace(c, line, f[1:])
 	}
 	return "badinput"
 }
@@ -881,5 +936,8 @@ func genSchedC06(c *ctx, emit func(string)) {
 	}
 	for i := 0; i < 2; i++ {
 		emit(fmt.Sprintf("#stress %x %x %x", c.seed*10+int64(i), 8, secs*500))
+	}
+	if c.tier == "thorough" {
+		emit(fmt.Sprintf("#race %x %x %x", c.seed*10+7, 8, 20000))
 	}
 }
